@@ -97,9 +97,15 @@ def dt_cases6(draw, tier, kind):
     tr = draw(F.traces(vs, n=n))
     if draw(st.integers(0, 3)) == 0:
         few = st.sampled_from([0.0, 1.0, 2.0, 3.0, -1.0])
+        consts = [1.0, 2.0, 0.0]
+        if draw(st.booleans()):
+            # values that are nearly, but not exactly, equal (0.1 + 0.2 next to 0.3): equality is exact equality
+            few = st.sampled_from([0.3, 0.1 + 0.2, 1.0, 1.0 + 2.0 ** -30, 2.0, 0.3, 1.0])
+            consts = [0.3, 1.0, 2.0]
         tr = {v: [draw(few) for _ in range(n)] for v in vs}
         v = draw(st.sampled_from(vs))
-        eq = ('pred', draw(st.sampled_from(['==', '!==', '==', '<=', '>'])), ('var', v), ('const', draw(st.sampled_from([1.0, 2.0, 0.0]))))
+        other = ('const', draw(st.sampled_from(consts))) if draw(st.integers(0, 2)) else ('var', draw(st.sampled_from(vs)))
+        eq = ('pred', draw(st.sampled_from(['==', '!==', '==', '<=', '>'])), ('var', v), other)
         f = graft(f, eq, draw(st.lists(st.integers(0, 1), max_size=4)))
     return {'kind': kind, 'formula': f, 'vars': vs, 'trace': tr,
             'sem': draw(st.sampled_from(SEMS)), 'io': draw(io_assign(vs))}
@@ -118,9 +124,14 @@ def ct_cases6(draw, tier, kind):
         # mode-like signals: very few distinct values, so that consecutive segments differ from a constant by the same
         # amount with opposite sign, and equality predicates
         few = st.sampled_from([0.0, 1.0, 2.0, 3.0, -1.0])
+        consts = [1.0, 2.0, 0.0]
+        if draw(st.booleans()):
+            few = st.sampled_from([0.3, 0.1 + 0.2, 1.0, 1.0 + 2.0 ** -30, 2.0, 0.3, 1.0])
+            consts = [0.3, 1.0, 2.0]
         c['signals'] = {v: [[k, draw(few)] for k, _ in s] for v, s in c['signals'].items()}
         v = draw(st.sampled_from(c['vars']))
-        eq = ('pred', draw(st.sampled_from(['==', '!==', '==', '<=', '>'])), ('var', v), ('const', draw(st.sampled_from([1.0, 2.0, 0.0]))))
+        other = ('const', draw(st.sampled_from(consts))) if draw(st.integers(0, 2)) else ('var', draw(st.sampled_from(c['vars'])))
+        eq = ('pred', draw(st.sampled_from(['==', '!==', '==', '<=', '>'])), ('var', v), other)
         c['formula'] = graft(from_json(c['formula']), eq, draw(st.lists(st.integers(0, 1), max_size=4)))
     return c
 
